@@ -155,82 +155,164 @@ pub struct Built<T> {
     pub strict: bool,
 }
 
-pub enum Rec<T> {
-    One(Built<T>),
-    Many(Vec<Built<T>>),
+pub struct Rec<T> {
+    pub shape: Shape,
+    pub items: Vec<Built<T>>,
 }
 
 impl<T> Rec<T> {
     pub fn items(&self) -> &[Built<T>] {
-        match self {
-            Rec::One(b) => std::slice::from_ref(b),
-            Rec::Many(v) => v,
-        }
-    }
-    pub fn is_many(&self) -> bool {
-        matches!(self, Rec::Many(_))
+        &self.items
     }
 }
 
-struct RecSer<'a, T>(&'a Rec<T>);
+// The document types.  Generic in the item so that the same definitions serialise the values
+// under test (I = Version / Range) and compute the bytes the record must consist of from the
+// in-memory printed strings (I = String), and decode either.
 
-impl<'a, T: Item> Serialize for RecSer<'a, T> {
+#[derive(Serialize)]
+struct EntryRef<'a, I> {
+    name: &'a str,
+    v: &'a I,
+    tags: [&'a str; 2],
+}
+
+#[derive(Deserialize)]
+#[serde(bound(deserialize = "I: Deserialize<'de>"))]
+struct EntryOwned<I> {
+    #[allow(dead_code)]
+    name: String,
+    v: I,
+    #[allow(dead_code)]
+    tags: Vec<String>,
+}
+
+#[derive(Serialize)]
+#[serde(tag = "kind")]
+enum TaggedRef<'a, I> {
+    Pin { v: &'a I },
+}
+
+#[derive(Deserialize)]
+#[serde(tag = "kind", bound(deserialize = "I: Deserialize<'de>"))]
+enum TaggedOwned<I> {
+    Pin { v: I },
+    #[allow(dead_code)]
+    Other,
+}
+
+/// JSON object whose keys are the items, in the given order.
+struct KeysOwned<I>(Vec<I>);
+
+impl<'de, I: Deserialize<'de>> Deserialize<'de> for KeysOwned<I> {
+    fn deserialize<D: serde::Deserializer<'de>>(d: D) -> Result<Self, D::Error> {
+        struct V<I>(std::marker::PhantomData<I>);
+        impl<'de, I: Deserialize<'de>> serde::de::Visitor<'de> for V<I> {
+            type Value = KeysOwned<I>;
+            fn expecting(&self, f: &mut fmt::Formatter<'_>) -> fmt::Result {
+                f.write_str("a map keyed by items")
+            }
+            fn visit_map<A: serde::de::MapAccess<'de>>(self, mut m: A) -> Result<Self::Value, A::Error> {
+                let mut out = Vec::new();
+                while let Some((k, _)) = m.next_entry::<I, u64>()? {
+                    out.push(k);
+                }
+                Ok(KeysOwned(out))
+            }
+        }
+        d.deserialize_map(V(std::marker::PhantomData))
+    }
+}
+
+struct Wire<'a, I>(Shape, &'a [&'a I]);
+
+impl<'a, I: Serialize> Serialize for Wire<'a, I> {
     fn serialize<S: serde::Serializer>(&self, s: S) -> Result<S::Ok, S::Error> {
+        let items = self.1;
         match self.0 {
-            Rec::One(b) => b.item.serialize(s),
-            Rec::Many(v) => s.collect_seq(v.iter().map(|b| &b.item)),
+            Shape::One => items[0].serialize(s),
+            Shape::Many => s.collect_seq(items.iter()),
+            Shape::Entry => EntryRef { name: "pkg", v: items[0], tags: ["a", "b"] }.serialize(s),
+            Shape::Tagged => TaggedRef::Pin { v: items[0] }.serialize(s),
+            Shape::Keyed => s.collect_map(items.iter().enumerate().map(|(i, k)| (k, i as u64))),
         }
     }
 }
 
-fn decode<'de, T: Item, D: serde::Deserializer<'de>>(many: bool, d: D) -> Result<Vec<T>, D::Error> {
-    if many {
-        Vec::<T>::deserialize(d)
-    } else {
-        T::deserialize(d).map(|t| vec![t])
+fn decode<'de, I: Deserialize<'de>, D: serde::Deserializer<'de>>(shape: Shape, d: D) -> Result<Vec<I>, D::Error> {
+    match shape {
+        Shape::One => I::deserialize(d).map(|t| vec![t]),
+        Shape::Many => Vec::<I>::deserialize(d),
+        Shape::Entry => EntryOwned::<I>::deserialize(d).map(|e| vec![e.v]),
+        Shape::Tagged => TaggedOwned::<I>::deserialize(d).map(|e| match e {
+            TaggedOwned::Pin { v } => vec![v],
+            TaggedOwned::Other => vec![],
+        }),
+        Shape::Keyed => KeysOwned::<I>::deserialize(d).map(|k| k.0),
     }
 }
 
 /// What the stored bytes mean, as strings, decoded by serde_json alone (no crate code).
-fn decode_strings(many: bool, data: &[u8]) -> Option<Vec<String>> {
-    if many {
-        serde_json::from_slice::<Vec<String>>(data).ok()
-    } else {
-        serde_json::from_slice::<String>(data).ok().map(|s| vec![s])
-    }
+fn decode_strings(shape: Shape, data: &[u8]) -> Option<Vec<String>> {
+    let mut de = serde_json::Deserializer::from_slice(data);
+    let v = decode::<String, _>(shape, &mut de).ok()?;
+    de.end().ok()?;
+    Some(v)
 }
 
-/// Another writer's encoding of the same JSON value: `\uXXXX` escapes on a content-determined
-/// subset of characters, blanks around tokens.  A pure function of the strings.
-fn reencode_escaped(many: bool, strings: &[String]) -> String {
-    let mut out = String::new();
-    let enc = |s: &str, out: &mut String| {
-        out.push('"');
-        for (i, ch) in s.chars().enumerate() {
-            let code = ch as u32;
-            if code < 0x80 && (i == 0 || (i + s.len()) % 3 == 0 || code < 0x20 || ch == '"' || ch == '\\') {
-                let _ = write!(out, "\\u{:04x}", code);
-            } else {
+/// Another writer's encoding of the same JSON document: `\uXXXX` escapes on a position-determined
+/// subset of the characters inside string literals (keys included), blanks and newlines between
+/// tokens.  A pure function of the document; `None` if the bytes are not JSON.
+fn reencode_escaped(data: &[u8]) -> Option<String> {
+    serde_json::from_slice::<serde::de::IgnoredAny>(data).ok()?;
+    let compact = std::str::from_utf8(data).ok()?;
+    let mut out = String::with_capacity(compact.len() * 2);
+    out.push_str("  ");
+    let mut in_str = false;
+    let mut esc = false;
+    let mut k = 0usize;
+    for ch in compact.chars() {
+        if in_str {
+            if esc {
                 out.push(ch);
+                esc = false;
+            } else if ch == '\\' {
+                out.push(ch);
+                esc = true;
+            } else if ch == '"' {
+                out.push(ch);
+                in_str = false;
+            } else {
+                k += 1;
+                if (ch as u32) < 0x80 && (k % 3 == 1) {
+                    let _ = write!(out, "\\u{:04x}", ch as u32);
+                } else {
+                    out.push(ch);
+                }
+            }
+        } else {
+            match ch {
+                '"' => {
+                    in_str = true;
+                    k = 0;
+                    out.push(ch);
+                }
+                ',' => out.push_str(" ,\n "),
+                ':' => out.push_str(" : "),
+                '[' | '{' => {
+                    out.push(ch);
+                    out.push(' ');
+                }
+                ']' | '}' => {
+                    out.push(' ');
+                    out.push(ch);
+                }
+                _ => out.push(ch),
             }
         }
-        out.push('"');
-    };
-    if many {
-        out.push_str(" [ ");
-        for (i, s) in strings.iter().enumerate() {
-            if i > 0 {
-                out.push_str(" ,\n ");
-            }
-            enc(s, &mut out);
-        }
-        out.push_str(" ]\n");
-    } else {
-        out.push_str("  ");
-        enc(&strings[0], &mut out);
-        out.push_str(" \n");
     }
-    out
+    out.push_str(" \n");
+    Some(out)
 }
 
 struct BorrowedItem<'de>(&'de str);
@@ -243,9 +325,9 @@ impl<'de> IntoDeserializer<'de, ValueError> for BorrowedItem<'de> {
 
 type Decoded<T> = Result<Vec<T>, String>;
 
-fn read_json<T: Item, R: io::Read>(many: bool, r: R) -> Decoded<T> {
+fn read_json<T: Item, R: io::Read>(shape: Shape, r: R) -> Decoded<T> {
     let mut de = serde_json::Deserializer::from_reader(r);
-    match decode::<T, _>(many, &mut de) {
+    match decode::<T, _>(shape, &mut de) {
         Ok(v) => de.end().map(|_| v).map_err(|e| e.to_string()),
         Err(e) => Err(e.to_string()),
     }
@@ -264,18 +346,20 @@ struct ReadResult<T> {
 }
 
 fn run_delivery<T: Item>(
-    many: bool,
+    shape: Shape,
     data: &[u8],
     rp: &ReadPlan,
     search: Option<(Rng, &FaultCfg)>,
     stats: &mut Stats,
 ) -> ReadResult<T> {
     let e2s = |e: &dyn fmt::Display| e.to_string();
-    let strings = decode_strings(many, data);
+    let many = shape == Shape::Many;
+    let strings = match rp.delivery {
+        Delivery::DeStr | Delivery::DeString | Delivery::DeBorrowed => decode_strings(shape, data),
+        _ => None,
+    };
     let escaped: Option<String> = match rp.delivery {
-        Delivery::EscapedStr | Delivery::EscapedReader => {
-            strings.as_ref().map(|s| reencode_escaped(many, s))
-        }
+        Delivery::EscapedStr | Delivery::EscapedReader => reencode_escaped(data),
         _ => None,
     };
     let mut out = ReadResult {
@@ -318,9 +402,9 @@ fn run_delivery<T: Item>(
             let res = guarded(|| match rp.delivery {
                 Delivery::BufReader(cap) => {
                     let br = io::BufReader::with_capacity(cap.max(1), &mut reader);
-                    read_json::<T, _>(many, br)
+                    read_json::<T, _>(shape, br)
                 }
-                _ => read_json::<T, _>(many, &mut reader),
+                _ => read_json::<T, _>(shape, &mut reader),
             });
             out.terminal_at = reader.terminal_at;
             out.hard_error = reader.hard_delivered;
@@ -342,7 +426,7 @@ fn run_delivery<T: Item>(
                 None => Ok(Err("not UTF-8 / not JSON of the expected shape".into())),
                 Some(t) => guarded(|| {
                     let mut de = serde_json::Deserializer::from_str(t);
-                    match decode::<T, _>(many, &mut de) {
+                    match decode::<T, _>(shape, &mut de) {
                         Ok(v) => de.end().map(|_| v).map_err(|e| e2s(&e)),
                         Err(e) => Err(e2s(&e)),
                     }
@@ -352,7 +436,7 @@ fn run_delivery<T: Item>(
         Delivery::Value => {
             out.result = match serde_json::from_slice::<serde_json::Value>(data) {
                 Err(e) => Ok(Err(e2s(&e))),
-                Ok(v) => guarded(|| decode::<T, _>(many, v).map_err(|e| e2s(&e))),
+                Ok(v) => guarded(|| decode::<T, _>(shape, v).map_err(|e| e2s(&e))),
             };
         }
         Delivery::DeStr | Delivery::DeString | Delivery::DeBorrowed => {
@@ -526,17 +610,16 @@ fn build_rec_versions(spec: &ValueSpec, stats: &mut Stats) -> Option<Rec<Version
         Some(Built { item: v, strict: true })
     };
     match spec {
-        ValueSpec::Version(s) => {
+        ValueSpec::Versions { shape, items } => {
             stats.inc(C::values_version);
-            Some(Rec::One(one(s, stats)?))
-        }
-        ValueSpec::VersionList(l) => {
-            stats.inc(C::values_version_list);
+            if shape.single() && items.len() != 1 {
+                return None;
+            }
             let mut out = Vec::new();
-            for s in l {
+            for s in items {
                 out.push(one(s, stats)?);
             }
-            Some(Rec::Many(out))
+            Some(Rec { shape: *shape, items: out })
         }
         _ => None,
     }
@@ -561,17 +644,16 @@ fn build_rec_ranges(spec: &ValueSpec, stats: &mut Stats) -> Option<Rec<Range>> {
         }
     };
     match spec {
-        ValueSpec::Range(s) => {
+        ValueSpec::Ranges { shape, items } => {
             stats.inc(C::values_range);
-            Some(Rec::One(one(s, stats)?))
-        }
-        ValueSpec::RangeList(l) => {
-            stats.inc(C::values_range_list);
+            if shape.single() && items.len() != 1 {
+                return None;
+            }
             let mut out = Vec::new();
-            for s in l {
+            for s in items {
                 out.push(one(s, stats)?);
             }
-            Some(Rec::Many(out))
+            Some(Rec { shape: *shape, items: out })
         }
         _ => None,
     }
@@ -580,11 +662,11 @@ fn build_rec_ranges(spec: &ValueSpec, stats: &mut Stats) -> Option<Rec<Range>> {
 pub fn execute(plan: &Plan, search: Option<Search>, stats: &mut Stats) -> Outcome {
     stats.inc(C::runs);
     match &plan.value {
-        ValueSpec::Version(_) | ValueSpec::VersionList(_) => {
+        ValueSpec::Versions { .. } => {
             let rec = build_rec_versions(&plan.value, stats);
             execute_rec::<Version>(plan, rec, search, stats)
         }
-        ValueSpec::Range(_) | ValueSpec::RangeList(_) => {
+        ValueSpec::Ranges { .. } => {
             let rec = build_rec_ranges(&plan.value, stats);
             execute_rec::<Range>(plan, rec, search, stats)
         }
@@ -629,7 +711,15 @@ where
         ),
         None => (None, None, None, None, FaultCfg::none()),
     };
-    let many = rec.is_many();
+    let shape = rec.shape;
+    stats.inc(match shape {
+        Shape::One => C::shape_bare,
+        Shape::Many => C::shape_array,
+        Shape::Entry => C::shape_struct_field,
+        Shape::Tagged => C::shape_tagged_enum,
+        Shape::Keyed => C::shape_map_keys,
+    });
+    let many = shape == Shape::Many;
 
     // ---- G0 ------------------------------------------------------------------------------------
     let mut printed: Vec<String> = Vec::new();
@@ -765,15 +855,12 @@ where
     let j: Vec<u8> = {
         // the bytes the record must consist of, computed from the in-memory printed forms by
         // serde_json alone (strings in, JSON out), in the layout the knob selects
-        let v = if many {
-            serde_json::Value::from(printed.clone())
-        } else {
-            serde_json::Value::from(printed[0].clone())
-        };
+        let refs: Vec<&String> = printed.iter().collect();
+        let w = Wire(shape, &refs);
         if plan.knobs.pretty {
-            serde_json::to_vec_pretty(&v).unwrap()
+            serde_json::to_vec_pretty(&w).unwrap()
         } else {
-            serde_json::to_vec(&v).unwrap()
+            serde_json::to_vec(&w).unwrap()
         }
     };
     let mut disk = Disk::default();
@@ -806,7 +893,8 @@ where
     let wout: WOut = {
         let mut sw = SimWriter { disk: &mut disk, ctl: &mut wctl, stats: &mut *stats };
         let pretty = plan.knobs.pretty;
-        let recser = RecSer(&rec);
+        let item_refs: Vec<&T> = rec.items().iter().map(|b| &b.item).collect();
+        let recser = Wire(shape, &item_refs);
         fn drive<W: io::Write, S: Serialize>(w: W, j: &[u8], pretty: bool, value: &S) -> (WOut, W) {
             let mut shim = Shim::new(w, j);
             let ser = guarded(|| {
@@ -1000,7 +1088,7 @@ where
     // ---- R: recovery -------------------------------------------------------------------------------
     // reference reading of the surviving bytes: in memory, no faults
     let reference = run_delivery::<T>(
-        many,
+        shape,
         &data,
         &ReadPlan { delivery: Delivery::Str, sched: vec![] },
         None,
@@ -1009,7 +1097,7 @@ where
     // from_str needs UTF-8; from_slice is the byte-level reference and must agree with it
     let reference_result: Result<Decoded<T>, String> = guarded(|| {
         let mut de = serde_json::Deserializer::from_slice(&data);
-        match decode::<T, _>(many, &mut de) {
+        match decode::<T, _>(shape, &mut de) {
             Ok(v) => de.end().map(|_| v).map_err(|e| e.to_string()),
             Err(e) => Err(e.to_string()),
         }
@@ -1159,12 +1247,25 @@ where
     let mut read_faults_total = 0usize;
     effective.reads.clear();
     for (k, rp) in read_plans.iter().enumerate() {
+        let applies = match rp.delivery {
+            // the serde::de::value deserializers carry bare strings: only bare values and arrays
+            Delivery::DeStr | Delivery::DeString | Delivery::DeBorrowed => matches!(shape, Shape::One | Shape::Many),
+            // serde_json::Value keeps one entry per key; a document with duplicate keys (two
+            // equal items, or a bit flip) legitimately reads differently through it
+            Delivery::Value => shape != Shape::Keyed,
+            _ => true,
+        };
+        if !applies {
+            counts.read_calls.push(0);
+            effective.reads.push(rp.clone());
+            continue;
+        }
         let s = match (&search, rng_r.as_ref()) {
             (Some(_), Some(r)) if rp.delivery.uses_reader() => Some((r.fork(100 + k as u64), &cfg)),
             _ => None,
         };
         stats.inc(C::reads_total);
-        let rr = run_delivery::<T>(many, &data, rp, s, stats);
+        let rr = run_delivery::<T>(shape, &data, rp, s, stats);
         read_faults_total += rr.read_faults;
         log.u64(rr.log);
         let name = rp.delivery.name();
@@ -1213,7 +1314,7 @@ where
                             // answer what the in-memory reading of the prefix answers
                             let want: Result<Decoded<T>, String> = guarded(|| {
                                 let mut de = serde_json::Deserializer::from_slice(prefix);
-                                match decode::<T, _>(many, &mut de) {
+                                match decode::<T, _>(shape, &mut de) {
                                     Ok(v) => de.end().map(|_| v).map_err(|e| e.to_string()),
                                     Err(e) => Err(e.to_string()),
                                 }
